@@ -799,6 +799,16 @@ def _check_find_config(ctx: Ctx) -> None:
                     ctx.ob("R-CONFIG-K5", f"{fi.qual} :: the [tool.flowmark] test is a presence test", not valued,
                            f"`{norm(a_)[:50]}` can be the table itself ({valued}); taken as a truth value, an empty `[tool.flowmark]` table counts as "
                            "no table and the search walks past a pyproject.toml that does configure flowmark", where(fi, b_))
+    # ... and it is decided on the parsed document: a search of the file's *text* for one spelling of the header
+    # (`"[tool.flowmark]" in text`) misses the other ways TOML writes the same table (sub-tables only, dotted keys, spaces)
+    from .common import reachable_functions as _reach
+
+    scope_ = [f_ for f_ in _reach(prog, [fi]).values() if f_.module is fi.module and not isinstance(f_.node, ast.Lambda)]
+    textual = [(f_, x) for f_ in scope_ for x in ast.walk(f_.node) if isinstance(x, ast.Compare) and len(x.ops) == 1 and isinstance(x.ops[0], (ast.In, ast.NotIn))
+               and isinstance(x.left, ast.Constant) and isinstance(x.left.value, str) and "flowmark" in x.left.value and any(ch in x.left.value for ch in "[.]")]
+    ctx.ob("R-CONFIG-K5", f"{fi.qual} :: the [tool.flowmark] test reads the parsed table", not textual,
+           "whether the table exists is a question for the TOML parser (`[tool.flowmark.formatting]`, `tool.flowmark.width = 1`, `[ tool.flowmark ]` all "
+           "define it); the search consults the file's text: " + ", ".join(norm(x)[:50] for _f, x in textual), where(textual[0][0], textual[0][1]) if textual else where(fi, fi.node))
     ctx.require("R-CONFIG-K5", "successful returns of find_config_file", n_ret, 1)
     # the walk starts at the resolved start directory and moves to .parent
     moves = [n for n in flow.cfg.nodes if n.kind == "stmt" and isinstance(n.ast, ast.Assign) and ".parent" in ast.unparse(n.ast.value)]
